@@ -435,6 +435,7 @@ type connectStreamingClientConn struct {
 	unmarshaler      connectStreamingUnmarshaler
 	responseHeader   http.Header
 	responseTrailer  http.Header
+	trailersMerged   bool // the end-of-stream metadata has been copied into responseTrailer
 }
 
 func (cc *connectStreamingClientConn) Spec() Spec {
@@ -464,7 +465,12 @@ func (cc *connectStreamingClientConn) Receive(msg any) error {
 	}
 	verifYield(cc.duplexCall.ctx, "receive.failed")
 	// See if the server sent an explicit error in the end-of-stream message.
-	mergeHeaders(cc.responseTrailer, cc.unmarshaler.Trailer())
+	if !cc.trailersMerged {
+		// Only once: a Receive after the end of the stream must not append the
+		// same trailers again.
+		cc.trailersMerged = true
+		mergeHeaders(cc.responseTrailer, cc.unmarshaler.Trailer())
+	}
 	if serverErr := cc.unmarshaler.EndStreamError(); serverErr != nil {
 		// This is expected from a protocol perspective, but receiving an
 		// end-of-stream message means that we're _not_ getting a regular message.
